@@ -517,6 +517,11 @@ func (r *Runner) Do(op Op) {
 			// its handling (ignore, keep injectivity) is judged by C12 with a model of the shared store
 			break
 		}
+		if pv, h := r.model.held(op.Sub); h && pv == v {
+			// re-announcing the value the subscriber already holds: whether that counts as a renewal is
+			// not something the property speaks of; Reapply covers the idempotence of such records
+			break
+		}
 		_ = mv.Move(op.Sub, v)
 		got, found, sup := r.pool.Lookup(op.Sub)
 		if sup && found && got == v {
